@@ -409,6 +409,20 @@ def specEdges (inp : Input) (cands : List (Option Url)) : List (Option Url × Ur
   cands.flatMap (fun d =>
     ((refsAt inp d).filter (fun r => decide (r.form ≠ Form.internal))).map (fun r => (d, resolvePath d r.url)))
 
+/-! ### uniform universes (a static class on which the second sentence holds without exclusion) -/
+
+/-- the locations of the file universe: the root's and every stored file's -/
+def univ (inp : Input) : List (Option Url) := inp.root :: inp.store.map (fun e => some e.1)
+
+/-- every non-'#' reference of every file resolves to the same location from every location of the universe:
+    all references absolute (absolute paths, URLs), or all files in one directory, or any mixture for which the
+    base does not matter -/
+def Uniform (inp : Input) : Prop :=
+  ∀ d ∈ univ inp, ∀ r ∈ refsAt inp d, r.form ≠ Form.internal →
+    ∀ d' ∈ univ inp, resolvePath d' r.url = resolvePath d r.url
+
+instance (inp : Input) : Decidable (Uniform inp) := by unfold Uniform; infer_instance
+
 /-! ### the caching reader `URIMapCache` (loader_uri_reader.go; `DefaultReadFromURI` is `URIMapCache(ReadFromURIs(…))`)
 
 The loader hands every location to `ReadFromURIFunc`; when that is `URIMapCache(reader)`, the locations that reach
